@@ -118,7 +118,8 @@ OptChoices ==
 \* field named by a reserved word (class)
 ExtraChoices ==
   CASE Scope = "shapes"  -> {"none", "kw", "internal"}
-    [] Scope \in {"options", "twins", "ads"} -> {"none"}
+    [] Scope \in {"options", "twins"} -> {"none"}
+    [] Scope = "ads"     -> {"none", "reserved"}
     [] Scope = "subpkg"  -> {"subpkg"}
     \* "nounv": the service YAML switches the unversioned convenience package off
     \* (python_settings.experimental_features.unversioned_package_disabled) - everything else is emitted as usual
@@ -130,7 +131,10 @@ ExtraChoices ==
 \* "sibdep": the dependency file's package extends the LAST SEGMENT of the target package (acme.lib.v1beta1 next to
 \* acme.lib.v1, acme.libs next to acme.lib) - it is a different package, not a sub-package, and stays a dependency
 Requests == { r \in [ pkg : PkgChoices, files : FilesChoices, svcs : SvcChoices, kinds : KindChoices,
-                      dep : BOOLEAN, items : OptChoices, extra : ExtraChoices ] : r.extra \in {"xreq", "sibdep"} => r.dep }
+                      dep : BOOLEAN, items : OptChoices, extra : ExtraChoices ] :
+                /\ (r.extra \in {"xreq", "sibdep"} => r.dep)
+                \* (scope ads: the reserved-word request field only with the plain Ads option list, one service, no dependency file)
+                /\ (Scope = "ads" /\ r.extra = "reserved" => r.items = AdsItems /\ Len(r.svcs) = 1 /\ ~r.dep) }
 
 Init == /\ req \in Requests
         /\ stage = "start" /\ opts = None /\ package = <<>> /\ naming = None /\ protos = <<>>
